@@ -26,7 +26,7 @@ ANCHORS_OPTIONAL = ('pycaption.dfxp.base:DFXPReader.read', 'pycaption.sami:SAMIP
 REQUIRE = {'child_batches': 3, 'dfxp_docs_read': 30, 'sami_docs_read': 30, 'div_without_lang': 5,
            'default_lang_env_used': 2, 'sets_written_dfxp': 50, 'sets_written_sami': 50, 'webvtt_lang_option': 30,
            'force_option': 20, 'sami_secondary_language_syncs_inserted': 30, 'reader_lang_option': 20,
-           'languages_compared': 300, 'hash_seeds_used': 2}
+           'languages_compared': 300, 'hash_seeds_used': 2, 'webvtt_lang_absent': 10}
 SHARDS = {'quick': 8, 'thorough': 16}
 
 
@@ -137,7 +137,7 @@ def cases(ctx):
         elif r < 0.85:
             spec = gen_multi_set(rng, tag)
             langs = [l['lang'] for l in spec['langs']]
-            yield {'kind': 'webvtt-write', 'set': spec, 'lang': rng.choice([None] + langs)}
+            yield {'kind': 'webvtt-write', 'set': spec, 'lang': rng.choice([None] + langs + ['xx', langs[0] + '-ZZ'])}
         else:
             fmt = rng.choice(['srt', 'webvtt', 'microdvd'])
             d = docs.generate(fmt, rng, tag, ctx)
@@ -229,7 +229,9 @@ def check(case, ctx):
         kw = {'lang': case['lang']} if case['lang'] else {}
         out = pycaption.WebVTTWriter().write(cs, **kw)
         cues = parsers.parse_webvtt(out)
-        want = texts[case['lang'] or langs[0]]
+        want = texts.get(case['lang'], []) if case['lang'] else texts[langs[0]]
+        if case['lang'] and case['lang'] not in langs:
+            ctx.count('webvtt_lang_absent')
         got = [' '.join(c['lines']) for c in cues]
         if got != want:
             fails.append({'what': 'WebVTT lang= does not write exactly the named language', 'lang': case['lang'],
